@@ -20,6 +20,7 @@ package yang
 
 import (
 	"fmt"
+	"sort"
 	"sync"
 )
 
@@ -356,6 +357,14 @@ func (ms *Modules) Process() []error {
 	for _, m := range ms.SubModules {
 		mods = append(mods, m)
 	}
+	// Which of two conflicting augments is merged first must not depend on
+	// map iteration order.
+	sort.SliceStable(mods, func(i, j int) bool {
+		if ki, kj := mods[i].Kind(), mods[j].Kind(); ki != kj {
+			return ki < kj
+		}
+		return mods[i].FullName() < mods[j].FullName()
+	})
 	for len(mods) > 0 {
 		var processed int
 		for i := 0; i < len(mods); {
